@@ -29,6 +29,8 @@ ASSUMPTIONS = [
     "damping values are non-negative (BiasConfig enforces NonNegativeFloat)",
     "ratings in a query history are finite; (user, item) pairs are rated at most once",
     "cutoffs and timestamps are generated at half-second steps (whole seconds for integer and datetime64[s] columns), so every value is exact in its representation",
+    "the zone of the process is UTC (the harness sets TZ=UTC): a naive cutoff is read as local time by datetime.timestamp(), i.e. as UTC here; "
+    "UTC offsets of named zones are taken from the zone database (zoneinfo) at generation time",
 ]
 RULE = ("structured generator: 1-8 users x 1-8 items (some without ratings), identifiers as a generated dimension (integer or string, independently "
         "for users and items; special values 0, '', negative, 2^31, 2^53+1, 2^63-1, strings whose order differs from their numeric order; the logical "
@@ -44,6 +46,9 @@ RULE = ("structured generator: 1-8 users x 1-8 items (some without ratings), ide
         "(scored items, histories, popularity probes) by identifier, by number with the dataset's vocabulary, or by number with a vocabulary of "
         "their own: same length as the training vocabulary with other members / another order, permuted, superset, shorter, longer), all three "
         "popularity variants of PopScorer and TimeBoundedPopScore scored for a probe list and for the whole catalogue, 3 cutoffs before/inside/after the data; "
+        "representation of the cutoff as a generated dimension (datetime / pandas Timestamp / ISO-8601 string, each naive, aware in UTC, aware with a fixed "
+        "offset of +5 h, -8 h, +5:30, -3:30, +13 h, +-1 h, or aware in a named zone; epoch seconds; numpy datetime64, refused), the input being the clock "
+        "reading plus the offset; interactions minutes or hours apart, so that a cutoff moved by its offset falls outside or inside the data; "
         "edge stream: single rating, constant ratings, one user or one item.  non-trivial = at least 3 ratings with 2 distinct values, "
         "2 distinct item counts and a query with a rated history; distinct = by hash of the case")
 
@@ -266,17 +271,66 @@ def gen_case(rng, edge=False):
     if trep in ("int",) or (trep == "date" and unit == "s"):
         for r in ratings:
             r[4] = 0                      # whole seconds only
+    crng = rng.fork("cutoff-representation")
+    if crng.chance(1, 3):
+        # interactions hours apart (instead of minutes), so that a cutoff moved by a UTC offset can stay inside the data
+        for r in ratings:
+            r[3] = base + (r[3] - base) * 36
     times = sorted({r[3] for r in ratings})
     cut = [times[0] - 50, rng.choice(times), times[-1] + 50, rng.choice(times) + rng.choice([-50, 50])]
     cutoffs = [fjson(Fraction(2 * c + rng.weighted([(0, 3), (1, 1)]), 2)) for c in rng.sample(cut, 3)]
+    cutreps = [gen_cutrep(crng, fparse(c)) for c in cutoffs]
     pop_items = rng.shuffle(rng.sample(list(range(ni)), rng.randint(0, ni)) + [f"x{k}" for k in rng.subset(range(3), 1, 2)])
     return {"ukind": idents["u"][0], "uids": idents["u"][1], "unk_uids": idents["u"][2],
             "ikind": idents["i"][0], "iids": idents["i"][1], "unk_iids": idents["i"][2], "extra_iids": idents["i"][3],
             "assembly": assembly, "scale": scale,
             "nu": nu, "ni": ni, "ratings": ratings, "damping": damping,
             "entities": entities, "path": path, "queries": queries, "trep": trep, "unit": unit, "tz": tz,
-            "build": build, "cutoffs": cutoffs, "pop_items": pop_items, "style": style,
+            "build": build, "cutoffs": cutoffs, "cutreps": cutreps, "pop_items": pop_items, "style": style,
             "pop_by_number": gen_by_number(rng, ni, pop_items, [(None, 2), ("dataset", 1), ("foreign", 4)])}
+
+
+CUT_OFFSETS = [5 * 3600, -8 * 3600, 5 * 3600 + 1800, -(3 * 3600 + 1800), 13 * 3600, 3600, -3600, 0]
+CUT_ZONES = ["America/Denver", "Asia/Kolkata", "Europe/Berlin", "Pacific/Auckland", "UTC"]
+DEFAULT_CUTREP = {"kind": "py", "zone": "utc", "off": 0}
+
+
+def zone_offset(zone, instant):
+    """UTC offset (seconds) of a named zone at an instant, from the zone database"""
+    import datetime
+    import zoneinfo
+    return int(datetime.datetime.fromtimestamp(int(instant), zoneinfo.ZoneInfo(zone)).utcoffset().total_seconds())
+
+
+def gen_cutrep(rng, instant):
+    """how the cutoff is handed to the scorer.  The input is a clock reading plus the clock's UTC offset (the instant of
+    the case is reading - offset): a datetime or pandas Timestamp that is naive, aware in UTC, aware with a fixed non-UTC
+    offset or aware in a named zone; an ISO-8601 string (as in a JSON configuration) without offset, with Z or with
+    +hh:mm; a number of epoch seconds; a numpy datetime64 (which the configuration refuses)."""
+    kind = rng.weighted([("py", 6), ("pd", 3), ("iso", 3), ("epoch", 1), ("np", 1)])
+    if kind in ("epoch", "np"):
+        return {"kind": kind, "zone": None, "off": 0}
+    zone = rng.weighted([("naive", 2), ("utc", 2), ("fixed", 5), ("named", 3 if kind != "iso" else 0)])
+    if zone == "fixed":
+        return {"kind": kind, "zone": "fixed", "off": rng.choice(CUT_OFFSETS)}
+    if zone == "named":
+        name = rng.choice(CUT_ZONES)
+        return {"kind": kind, "zone": name, "off": zone_offset(name, instant)}
+    return {"kind": kind, "zone": zone, "off": 0}
+
+
+def cutreps_of(case):
+    reps = case.get("cutreps") or []
+    return [reps[k] if k < len(reps) else DEFAULT_CUTREP for k in range(len(case["cutoffs"]))]
+
+
+def cutrep_label(cr):
+    z = cr["zone"]
+    where = ("" if z is None else "naive" if z == "naive" else "aware UTC" if z == "utc"
+             else f"aware, fixed offset {cr['off']:+d} s" if z == "fixed" else f"aware, zone {z} (offset {cr['off']:+d} s)")
+    what = {"py": "datetime", "pd": "pandas Timestamp", "iso": "ISO-8601 string", "epoch": "epoch seconds",
+            "np": "numpy datetime64"}[cr["kind"]]
+    return what + (f" ({where})" if where else "")
 
 
 def gen_cases(rng, tier):
@@ -297,6 +351,12 @@ def _setup():
         return
     common.use_repo()
     import datetime as dt
+    import os
+    import time
+
+    # a naive cutoff is read in the zone of the process (datetime.timestamp()): pin it, so that "naive" means UTC
+    os.environ["TZ"] = "UTC"
+    time.tzset()
 
     import numpy as np
     import pandas as pd
@@ -380,6 +440,33 @@ def _damping_arg(dm):
     if dm["form"] == "tuple":
         return (f("user"), f("item"))
     return {k: f(k) for k in ("user", "item") if dm[k] is not None}
+
+
+def make_cutoff(instant, cr):
+    """the cutoff object from the clock reading (instant + offset) and the clock's zone"""
+    import zoneinfo
+    wall = instant + cr["off"]
+    whole = wall.numerator // wall.denominator
+    wall_dt = dt.datetime(1970, 1, 1) + dt.timedelta(seconds=whole, microseconds=int((wall - whole) * 10**6))
+    z = cr["zone"]
+    tz = (None if z in (None, "naive") else dt.timezone.utc if z == "utc"
+          else dt.timezone(dt.timedelta(seconds=cr["off"])) if z == "fixed" else zoneinfo.ZoneInfo(z))
+    if cr["kind"] == "py":
+        return wall_dt.replace(tzinfo=tz)
+    if cr["kind"] == "pd":
+        ts = pd.Timestamp(wall_dt)
+        return ts if tz is None else ts.tz_localize(z if z not in ("utc", "fixed") else tz)
+    if cr["kind"] == "iso":
+        if tz is None:
+            return wall_dt.isoformat()
+        if z == "utc":
+            return wall_dt.isoformat() + "Z"
+        return wall_dt.replace(tzinfo=dt.timezone(dt.timedelta(seconds=cr["off"]))).isoformat()
+    if cr["kind"] == "epoch":
+        return int(instant) if instant.denominator == 1 else float(instant)
+    if cr["kind"] == "np":
+        return np.datetime64(wall_dt, "us")
+    raise ValueError(cr["kind"])
 
 
 def build_dataset(case):
@@ -509,13 +596,16 @@ def run_impl(case):
                   "dtype": str(sc.dtype)}
     obs["pop"] = pop
     tb = []
-    for c in case["cutoffs"]:
-        cf = fparse(c)
-        cutoff = dt.datetime.fromtimestamp(cf.numerator // cf.denominator, dt.timezone.utc) + dt.timedelta(
-            microseconds=int((cf - cf.numerator // cf.denominator) * 10**6))
+    for c, cr in zip(case["cutoffs"], cutreps_of(case)):
+        cutoff = make_cutoff(fparse(c), cr)
         row = {}
         for v in VARIANTS:
-            p = TimeBoundedPopScore(score=v, cutoff=cutoff)
+            try:
+                p = TimeBoundedPopScore(score=v, cutoff=cutoff)
+            except ValueError as e:           # pydantic's ValidationError: the configuration refuses the value
+                row[v] = "EReject"
+                row["msg"] = str(e)[:100]
+                continue
             try:
                 p.train(ds)
                 row[v] = [_num(p.item_scores_[k]) for k in inum]
@@ -623,14 +713,18 @@ def coq_term(case, obs):
         want = f"datetime64[{case['unit']}" + (f", {case['tz']}]" if case["tz"] else "]")
         if obs.get("ts_dtype") != want:
             return "false"
-    for c, row in zip(case["cutoffs"], obs["tb"]):
+    for c, cr, row in zip(case["cutoffs"], cutreps_of(case), obs["tb"]):
         for v in VARIANTS:
+            if row[v] == "EReject" and cr["kind"] == "np":
+                continue
             if isinstance(row[v], str):
                 return "false"
             if case["trep"] == "none":
                 counts = f"(all_counts {cnat(case['ni'])} {log_items})"
             else:
-                counts = f"(tb_counts {cnat(case['ni'])} {rep} {cq(fparse(c))} {log})"
+                # the cutoff as given: clock reading and the clock's UTC offset
+                given = f"{{| c_wall := {cq(fparse(c) + cr['off'])}; c_off := {cq(Fraction(cr['off']))} |}}"
+                counts = f"(tb_counts {cnat(case['ni'])} {rep} (cut_instant {given}) {log})"
             sc = clist(row[v], c_oq)
             parts.append(f"agree_pop_ids {TOL} iv {CVAR[v]} {counts} {sc}")
             parts.append(f"all2 (agree_opt {TOL}) (pop_call_ids iv {sc} {clist(everything, c_item)}) {clist(row[v + '-call'], c_oq)}")
@@ -783,7 +877,7 @@ def oracle(case, obs):
                                     f"({vocab_label(case, case['pop_items'], case.get('pop_by_number'))}) gave {po['call']}, "
                                     f"stored scores give {want_call} (unknown items must be unscored)"))
         check_called(v, counts, po["all"], "pop-call", case, out)
-    for c, row in zip(case["cutoffs"], obs["tb"]):
+    for c, cr, row in zip(case["cutoffs"], cutreps_of(case), obs["tb"]):
         cf = fparse(c)
         if case["trep"] == "none":
             tcounts = counts
@@ -791,13 +885,22 @@ def oracle(case, obs):
             def instant(r):
                 return Fraction(2 * r[3] + r[4], 2)
             tcounts = [sum(1 for r in case["ratings"] if r[1] == i and instant(r) > cf) for i in range(case["ni"])]
+        # the cutoff is an instant: a clock reading with a UTC offset means reading - offset
+        tbtag = f"time-bounded[{case['trep']};cutoff-with-utc-offset]" if cr["off"] else f"time-bounded[{rep_label(case)}]"
         for v in VARIANTS:
-            check_pop(v, tcounts, row[v], f"time-bounded[{rep_label(case)}]", out)
+            if row[v] == "EReject" and cr["kind"] == "np":
+                continue                      # a numpy datetime64 is not a datetime: refused when the scorer is configured
+            n0 = len(out)
+            check_pop(v, tcounts, row[v], tbtag, out)
             if not isinstance(row[v], str):
-                check_called(v, tcounts, row[v + "-call"], f"time-bounded[{rep_label(case)}]-call", case, out)
+                check_called(v, tcounts, row[v + "-call"], tbtag + "-call", case, out)
+            for k in range(n0, len(out)):
+                out[k] = (out[k][0], out[k][1] + f" -- cutoff at {c} s after the epoch, given as {cutrep_label(cr)}"
+                          + (f": {row['msg']}" if isinstance(row[v], str) and row.get("msg") else ""))
+            if not isinstance(row[v], str):
                 want_probe = [None if isinstance(x, str) else row[v][x] for x in case["pop_items"]]
                 if row.get(v + "-probe", want_probe) != want_probe:
-                    out.append((f"time-bounded[{rep_label(case)}]-probe",
+                    out.append((tbtag + "-probe",
                                 f"{v}, cutoff {c}: scoring {[iid(case, x) for x in case['pop_items']]!r} "
                                 f"({vocab_label(case, case['pop_items'], case.get('pop_by_number'))}) gave {row[v + '-probe']}, "
                                 f"stored scores give {want_probe} (unknown items must be unscored)"))
@@ -892,10 +995,19 @@ def counters(case, obs):
             yield "query-history=empty"
         else:
             yield "query-history=rated" + ("+unknown-items" if any(isinstance(x, str) for x, _ in q["hist"]["items"]) else "")
-    for c, row in zip(case["cutoffs"], obs["tb"]):
+    for c, cr, row in zip(case["cutoffs"], cutreps_of(case), obs["tb"]):
+        z = cr["zone"]
+        zc = ("" if z is None else z if z in ("naive", "utc") else
+              ("offset+" if cr["off"] > 0 else "offset-" if cr["off"] < 0 else "offset0") if z == "fixed" else "named-zone")
+        yield f"tb-cutoff-given={cr['kind']}" + (":" + zc if zc else "")
         if isinstance(row["count"], str):
             yield "tb=" + row["count"]
         else:
+            if cr["off"] and case["trep"] != "none":
+                # would reading the clock as UTC (dropping the offset) have changed the counts?
+                lo, hi = sorted([fparse(c), fparse(c) + cr["off"]])
+                between = any(lo < Fraction(2 * r[3] + r[4], 2) <= hi for r in case["ratings"])
+                yield "tb-cutoff-offset-" + ("matters" if between else "immaterial")
             tot = sum(fparse(x) for x in row["count"])
             yield "tb-cutoff=" + ("after-all" if tot == 0 else "before-all" if tot == len(case["ratings"]) else "inside")
 
@@ -914,6 +1026,8 @@ def shrink(case, fails):
         return case
     c = dict(case)
     c["queries"] = common.shrink_list(case["queries"], lambda xs: fails({**c, "queries": xs}), 20)
-    c["cutoffs"] = common.shrink_list(case["cutoffs"], lambda xs: fails({**c, "cutoffs": xs}), 10)
+    pairs = list(zip(case["cutoffs"], cutreps_of(case)))
+    unzip = lambda ps: {"cutoffs": [a for a, _ in ps], "cutreps": [b for _, b in ps]}
+    c.update(unzip(common.shrink_list(pairs, lambda ps: fails({**c, **unzip(ps)}), 10)))
     c["ratings"] = common.shrink_list(case["ratings"], lambda xs: bool(xs) and fails({**c, "ratings": xs}), 60)
     return c
